@@ -128,6 +128,15 @@ def run(tier, seed, replay=None):
             step = 1 if (tier != "quick" or len(data) < 900) else (3 if len(data) < 2500 else 7)
             for k in range(0, len(data), step):
                 faults.append((f"truncated at byte {k} of {len(data)}", "bytes", data[:k]))
+            # bytes that are not text in the reader's encoding, at positions inside keys, strings and numbers
+            for k in sorted({0, 1, len(data) // 7, len(data) // 3, len(data) // 2, len(data) - 2} | set(range(5, len(data), 97 if tier == "quick" else 13))):
+                if 0 <= k < len(data):
+                    faults.append((f"byte {k} overwritten with 0xFF", "bytes", data[:k] + b"\xff" + data[k + 1:]))
+                    faults.append((f"truncated at byte {k} inside a multi-byte sequence", "bytes", data[:k] + b"\xc3"))
+            faults += [("binary garbage", "bytes", bytes(range(256)) * 3), ("utf-16 copy", "bytes", data.decode("ascii").encode("utf-16")),
+                       ("nul-padded", "bytes", data + b"\x00" * 64),
+                       ("an integer of 5000 digits", "bytes", data.replace(b'"loc": ', b'"loc": 1' + b"0" * 5000, 1) if b'"loc": ' in data else b"1" + b"0" * 5000),
+                       ("deeply nested arrays", "bytes", b"[" * 100000), ("deeply nested objects", "bytes", b'{"a":' * 50000)]
             if ti in (1, 2) or tier != "quick":
                 sf = structural_faults(doc)
                 if tier == "quick":
@@ -158,7 +167,9 @@ def run(tier, seed, replay=None):
         "from pathlib import Path\n"
         "n, mode, root = int(sys.argv[1]), sys.argv[2], sys.argv[3]\n"
         "from codelimit.commands.scan import scan_command\n"
-        "if mode == 'error': signal.signal(signal.SIGXFSZ, signal.SIG_IGN)\n"
+        "# CPython ignores SIGXFSZ by default (the write then fails with EFBIG); 'kill' restores the default action: the\n"
+        "# process dies inside the write, no exception handler or finally block runs\n"
+        "signal.signal(signal.SIGXFSZ, signal.SIG_IGN if mode == 'error' else signal.SIG_DFL)\n"
         "resource.setrlimit(resource.RLIMIT_FSIZE, (n, n))\n"
         "with contextlib.redirect_stdout(io.StringIO()): scan_command(Path(root))\n")
     import subprocess
